@@ -22,7 +22,8 @@ import (
 
 const (
 	sigRollback = "index-rowloc-stale-after-rollback"
-	sigFailed   = "index-rowloc-stale-after-failed-stmt"
+	sigPKOrder  = "ordered-scan-unordered:primary-key-index:multi-partition-table"
+	sigUnbuilt  = "failed-unique-prefix-index-build-in-txn-leaves-empty-index"
 )
 
 type applied struct {
@@ -43,23 +44,26 @@ type histCase struct {
 	s      *core.Sess
 	h      *g8blib.Hist
 	seen   *g8blib.Seen
+	// classification state
+	pkOrderSeen   bool
+	txnOpenBefore bool // an explicit transaction was open when the current step started
 	// evidence
 	probed, indexDriven, planChecked int64
 }
 
 func main() {
 	r := core.NewRun("C16", "exploration",
-		"a case is one seeded history (schema: key mode × partitions × index set; ~36 steps of INSERT/IGNORE/REPLACE/ODKU/UPDATE incl. key updates/DELETE first-middle-last/TRUNCATE/CREATE+DROP INDEX/ALTER rewrites/BEGIN-COMMIT-ROLLBACK); after every step every probe's index-driven read is compared with the scan-driven evaluation of the same predicate on the table and on an index-free twin; distinct = (index shape, probe kind, kind of the preceding step) with a non-empty index-driven result")
+		"a case is one seeded history (schema: key mode × partitions × index set; 30 (quick) / 40 (thorough) steps of INSERT/IGNORE/REPLACE/ODKU/UPDATE incl. key updates/DELETE first-middle-last/TRUNCATE/CREATE+DROP INDEX/ALTER rewrites/BEGIN-COMMIT-ROLLBACK); after every step every probe's index-driven read is compared with the scan-driven evaluation of the same predicate on the table and on an index-free twin; distinct = (index shape, probe kind, kind of the preceding step) with a non-empty index-driven result")
 	r.Assume("value domains: INT columns and VARCHAR under utf8mb4_0900_bin without trailing spaces; literals always inside the column domain (out-of-domain index literals are C03's known class F11)")
 	r.Assume("statements whose semantics depend on which keys are unique (INSERT IGNORE, REPLACE, ON DUPLICATE KEY UPDATE) are generated only while the indexed table has no unique secondary index, because the twin shares only the primary key")
 	r.Assume("a statement that fails with a duplicate-key error on the indexed table is not given to the twin; a twin-only duplicate-key failure (row-order dependent multi-row key update) is inconclusive")
 	r.Assume("the structural H3 walk of DESIGN §4 (witness finder only, no verdict) is not available in /repo and is left out")
 
-	n := r.N(260, 6000)
+	n := r.N(200, 4000)
 	if os.Getenv("C16_N") != "" {
 		fmt.Sscan(os.Getenv("C16_N"), &n) // development aid: shorter runs
 	}
-	steps := 36
+	steps := r.N(30, 40)
 	r.Parallel("hist", n, func(i int) {
 		hc := &histCase{r: r, i: i, rnd: r.Rand("hist", i)}
 		hc.run(steps)
@@ -135,6 +139,7 @@ func (hc *histCase) run(steps int) {
 		return
 	}
 	for k := 0; k < steps; k++ {
+		hc.txnOpenBefore = hc.h.InTxn
 		st := hc.h.Next()
 		failed, cont := hc.applyStep(st)
 		if !cont {
@@ -288,7 +293,7 @@ func (hc *histCase) check(st g8blib.Step, stmtFailed bool) bool {
 			r.Inconclusive("watchdog")
 			return false
 		}
-		checkPlan := d != nil || hc.rnd.Intn(8) == 0
+		checkPlan := d != nil || hc.rnd.Intn(12) == 0
 		if checkPlan {
 			drv, pl := g8blib.IndexDriven(hc.s, p.Query("t", cols), "t")
 			hc.planChecked++
@@ -312,6 +317,22 @@ func (hc *histCase) check(st g8blib.Step, stmtFailed bool) bool {
 				"scan_evaluation": "SELECT …, (" + p.Pred() + ") IS TRUE FROM t / FROM n", "rows_matching": len(exp), "agree": true})
 		}
 	}
+	// Known class 1 (kept apart, the history goes on): ordered scans served by the PRIMARY KEY index of a
+	// table with several partitions return the right rows partition by partition, each partition sorted,
+	// not merged — the key sequence is not ordered although the plan dropped the Sort.
+	var rest []*g8blib.Diff
+	pkIdx := "index: [t." + strings.Join(t.PK, ",t.") + "]"
+	for _, d := range diffs {
+		if d.Why == g8blib.WhyKeySequence && hc.parts > 1 && len(t.PK) > 0 && strings.Contains(d.Plan, pkIdx) {
+			if !hc.pkOrderSeen {
+				hc.pkOrderSeen = true
+				r.Violation(sigPKOrder, hc.witness(map[string]any{"after": after, "first_diff": d}))
+			}
+			continue
+		}
+		rest = append(rest, d)
+	}
+	diffs = rest
 	if len(diffs) == 0 {
 		return true
 	}
@@ -319,10 +340,14 @@ func (hc *histCase) check(st g8blib.Step, stmtFailed bool) bool {
 	d := diffs[0]
 	var kinds []string
 	seenKind := map[string]bool{}
+	missingOnly := true
 	for _, x := range diffs {
 		if !seenKind[x.Probe.Shape+"/"+x.Probe.Kind] {
 			seenKind[x.Probe.Shape+"/"+x.Probe.Kind] = true
 			kinds = append(kinds, x.Probe.Shape+"/"+x.Probe.Kind)
+		}
+		if !(x.MissingOnly() || x.Why == "count") {
+			missingOnly = false
 		}
 	}
 	w := hc.witness(map[string]any{"after": after, "first_diff": d, "diff_count": len(diffs), "diff_kinds": kinds,
@@ -331,12 +356,14 @@ func (hc *histCase) check(st g8blib.Step, stmtFailed bool) bool {
 	switch {
 	case readErr:
 		r.Violation("index-read-error:"+d.Probe.Shape+":"+d.Probe.Kind, w)
+	case stmtFailed && strings.HasPrefix(st.Kind, "create-index-uniq") && strings.Contains(st.Kind, "prefix") && missingOnly && hc.txnOpenBefore:
+		// Known class 2: inside an explicit transaction a CREATE UNIQUE INDEX over a prefix column fails in the
+		// index build (duplicate prefixes pass the whole-value pre-check) and leaves the index registered
+		// with empty storage: reads planned through it miss rows.
+		r.Violation(sigUnbuilt, w)
 	case st.Kind == "rollback":
-		// F24: table data is right (equals the twin, scan evaluation agrees), only the reads through a
-		// secondary index return rows from shifted row locations, first seen right after ROLLBACK
+		// F24 (fixed in /repo by "TableData.copy copies secondary index rows"): kept as its own class
 		r.Violation(sigRollback, w)
-	case stmtFailed:
-		r.Violation(sigFailed, w)
 	default:
 		r.Violation("index-read-differs-from-scan:"+d.Probe.Shape+":"+classOf(d.Probe.Kind)+":after-"+after, w)
 	}
@@ -381,8 +408,6 @@ func pinned(r *core.Run) {
 		map[string]any{"script": script, "via_index": viaIndex, "via_scan": viaScan})
 	r.Eval(1)
 
-	// failed-statement variant (found by exploration; see findings/C16.md)
-	still2, what2, w2 := pinnedFailed()
-	r.Pinned(sigFailed, what2, still2, w2)
-	r.Eval(1)
+	pinnedPKOrder(r)
+	pinnedUnbuilt(r)
 }
